@@ -19,12 +19,34 @@ MANIFEST = {
  }
 
 
+GENF = os.path.join(vf.COQ, 'Gen', 'GenFormats.v')
+
+
+def regen_formats(ctx):
+    """re-list the %s / %v arguments of the diagnostic formats of the package; write Gen only when changed"""
+    tmp = os.path.join(ctx.out, 'GenFormats.v')
+    rc, out = vf.sh([os.path.join(vf.BIN, 'c16'), '-extract-formats', vf.REPO, '-gen', tmp], timeout=120)
+    if rc != 0:
+        ctx.broken.append('listing the diagnostic formats of the package failed: ' + out[-400:])
+        return
+    new = open(tmp).read()
+    old = open(GENF).read() if os.path.exists(GENF) else None
+    if new != old:
+        open(GENF, 'w').write(new)
+        ctx.notes.append('coq/Gen/GenFormats.v regenerated (content changed)')
+
+
 def run(ctx):
     ok, log = vf.build_harness(ctx, ['c16'])
     if not ok:
         ctx.broken.append('harness does not build against /repo: ' + log[-400:])
         vf.finish(ctx, 'proof', [])
+    regen_formats(ctx)
     nthm, ndis, _ = vf.check_props(ctx)
+    if 'FormatArgs' in (getattr(ctx, 'coq_log', '') or ''):
+        known = open(os.path.join(vf.COQ, 'Out', 'FormatArgs.v')).read()
+        new = [l.strip().rstrip(';') for l in open(GENF).read().split('\n') if l.strip().startswith('("') and l.strip().rstrip(';')[:-1] not in known]
+        ctx.broken.append('coq/Out/FormatArgs.v (format_args_known_b): a diagnostic prints a value without quoting (%s / %v, or a message glued together with +) at a place that is not one of the known ones: ' + ' '.join(new[:4]))
     okm, logm = vf.coq_make(['Out/C16Obs.vo', 'Base/Corr.vo'])
     if not okm:
         ctx.broken.append('coq build of Out/C16Obs.v failed: ' + logm[-400:])
